@@ -19,6 +19,7 @@ let handle (toks : string list) : string =
             | None -> if model <> impl then "diff sliding_trace model=" ^ model
                       else if List.exists (function EvBatch b -> List.length b.b_rows >= 2 | _ -> false) tr then "ok nt" else "ok")
        | _ -> "bad line")
+  | "Q" :: rest -> Winsql.handle_q rest
   | _ -> "bad line"
 
 let () = Registry.register "C08" handle
